@@ -45,6 +45,10 @@ int self_id() noexcept;
 [[noreturn]] void fail_now( const char* what ) noexcept;
 [[noreturn]] void fail_sig( const char* signature, const char* message ) noexcept;
 
+// Asynchronous signal delivery (DESIGN 4.6): which participant owns this pthread id (-1: none), and run a handler on it
+int participant_of( unsigned long pthread_id ) noexcept;
+void run_on( int target, void (*fn)( void* ), void* arg ) noexcept;
+
 // Worker-thread phase barriers (three-phase bodies, DESIGN 4.4): everything between
 // explore_begin() and explore_end() is explored; prologue/epilogue run one thread at a time.
 void explore_begin() noexcept;
